@@ -21,7 +21,8 @@ theorem round_error_iff (i : Nat) (s : σ) (e : ε) :
   have hz : Constants.repopAfterRound = 0 := rfl
   rcases Nat.eq_zero_or_pos i with hi | hi
   · subst hi
-    simp only [round, hz, Nat.lt_irrefl, if_false, false_and, false_or, bind, Except.bind,
+    rw [round_eq_spec]
+    simp only [roundSpec, hz, Nat.lt_irrefl, if_false, false_and, false_or, bind, Except.bind,
       pure, Except.pure]
     cases h1 : P.stats s with
     | error e1 => simp [h1]
@@ -29,7 +30,8 @@ theorem round_error_iff (i : Nat) (s : σ) (e : ε) :
       cases h2 : P.opt s2 with
       | error e2 => simp [h1, h2]
       | ok s3 => simp [h1, h2]
-  · simp only [round, hz, hi, if_true, true_and, bind, Except.bind]
+  · rw [round_eq_spec]
+    simp only [roundSpec, hz, hi, if_true, true_and, bind, Except.bind]
     cases h0 : P.repop s with
     | error e0 => simp
     | ok s1 =>
